@@ -847,6 +847,8 @@ class ArrayOf(DataType):
 
     def import_value(self, value):
         """returns a python object from serialisation"""
+        if not isinstance(value, (list, tuple)):
+            raise WrongTypeError(f'{shortrepr(value)} must be a list')
         return tuple(self.members.import_value(elem) for elem in value)
 
     def format_value(self, value, unit=True):
@@ -937,6 +939,9 @@ class TupleOf(DataType):
 
     def import_value(self, value):
         """returns a python object from serialisation"""
+        if not isinstance(value, (list, tuple)):
+            raise WrongTypeError(f'{shortrepr(value)} must be a list')
+        self.check_type(value)
         return tuple(sub.import_value(elem) for sub, elem in zip(self.members, value))
 
     def format_value(self, value, unit=True):
@@ -1050,6 +1055,8 @@ class StructOf(DataType):
 
     def import_value(self, value):
         """returns a python object from serialisation"""
+        if not isinstance(value, dict):
+            raise WrongTypeError(f'{shortrepr(value)} must be a JSON object')
         self.check_type(value, True)
         return {str(k): self.members[k].import_value(v)
                 for k, v in value.items()}
